@@ -1,4 +1,4 @@
-"""C09 - get_reusable_executor always returns a live, correctly configured singleton (SIM engine)."""
+"""C09 - get_reusable_executor always returns a live, correctly configured singleton (SIM engine + REAL confirming part)."""
 from sim import oracles, strategies
 from props._simprop import install
 
@@ -12,7 +12,10 @@ RULE = (
     "an instance that was broken/shut down when the call began is never returned. Profile 'race': 2-3 threads call "
     "get(max_workers=m_i) concurrently (other arguments equal) and submit; every submit is accepted, every task "
     "completes with its own outcome, ids stay monotonic. Non-trivial = >= 2 get calls of which one replaced or resized "
-    "the instance (history), or >= 2 threads with different max_workers (race)."
+    "the instance (history), or >= 2 threads with different max_workers (race). REAL part: the same sequential histories on "
+    "real processes (factory calls, echo tasks, tasks that kill their worker, idle workers killed from outside with SIGKILL/"
+    "SIGSEGV, shutdowns with and without wait/kill_workers), judged by the same reference model from /proc (liveness of the "
+    "registered and of the previous instance's workers) and the executors' flags."
 )
 
 
@@ -58,3 +61,154 @@ def oracle(H):
 
 SWEEP = (8, 100)
 install(globals(), ID, 3500, 40000, profiles=[("profile", 0.6), ("race", 0.4)])
+
+_sim_run = run
+_sim_replay = replay
+
+
+# ----------------------------------------------------------------------------- REAL confirming part
+def real_oracle(prog, out):
+    m = [o for o in out if "log" in o]
+    if not m:
+        return [("driver_incomplete", f"{out[-2:]}")]
+    v = []
+    created_timeout = None
+    ids = []
+    usable = False
+    for k, r in enumerate(m[0]["log"]):
+        op = r["op"]
+        if "raised" in r:
+            if op[0] == "get":
+                v.append(("factory_call_raised", f"op {k} get_reusable_executor({op[1]}) raised {r['raised']}"))
+                usable = False
+            elif op[0] in ("echo", "crash") and usable:
+                v.append(("submit_refused", f"op {k} {op} on the executor just obtained from the factory raised {r['raised']}"))
+            elif op[0] == "shutdown":
+                v.append(("shutdown_raised", f"op {k} {op}: {r['raised']}"))
+            continue
+        if op[0] == "get":
+            a, b, af = op[1], r["before"], r["after"]
+            healthy = b is not None and not b["broken"] and not b["shutdown"]
+            same_args = created_timeout is not None and created_timeout[0] == a["timeout"]
+            expect_same = healthy and (a["reuse"] is True or (a["reuse"] == "auto" and same_args))
+            same = b is not None and af["obj"] == b["obj"]
+            if af["broken"] or af["shutdown"]:
+                v.append(("unhealthy_executor_returned", f"op {k}: returned executor has broken={af['broken']} shutdown={af['shutdown']}"))
+            if same != expect_same:
+                v.append(("wrong_identity", f"op {k} get({a}): previous instance {b}; expected {'the same' if expect_same else 'a fresh'} "
+                          f"instance, got {'the same' if same else 'a fresh'} one ({af})"))
+            if not same:
+                if ids and af["executor_id"] <= max(ids):
+                    v.append(("executor_id_not_increasing", f"op {k}: new id {af['executor_id']} after {ids}"))
+                if r["prev_workers_alive_at_return"]:
+                    v.append(("previous_instance_not_shut_down", f"op {k}: workers {r['prev_workers_alive_at_return']} of the replaced "
+                              f"instance were still alive when the factory returned the new one"))
+                created_timeout = [a["timeout"]]
+                ids.append(af["executor_id"])
+            if af["max_workers"] != a["max_workers"]:
+                v.append(("wrong_size", f"op {k}: requested {a['max_workers']}, _max_workers {af['max_workers']}"))
+            if same and b["started"] and len(af["live"]) != a["max_workers"] and (created_timeout[0] is None or created_timeout[0] >= 20):
+                v.append(("wrong_number_of_live_workers", f"op {k}: requested {a['max_workers']}, live workers {af['live']} "
+                          f"(registered {af['registered']}; no idle time-out possible)"))
+            if af["registered"] != af["live"]:
+                v.append(("dead_worker_in_returned_executor", f"op {k}: registered {af['registered']}, alive {af['live']}"))
+            usable = True
+        elif op[0] == "echo":
+            if usable and r["out"] != ["val", r["tok"]]:
+                v.append(("task_on_returned_executor_failed", f"op {k}: echo({r['tok']}) on the executor obtained from the factory ended with {r['out']}"))
+        elif op[0] == "crash":
+            if usable and not (r["out"][0] == "exc" and "BrokenProcessPool" in r["out"][2]):
+                v.append(("crash_not_reported", f"op {k}: {r['out']}"))
+            usable = False
+        elif op[0] == "ext_kill":
+            if "victim" in r and r["flagged_after"] is None:
+                v.append(("death_not_detected", f"op {k}: idle worker {r['victim']} killed from outside, executor not flagged broken within 10 s"))
+            if "victim" in r:
+                usable = False
+        elif op[0] == "shutdown":
+            usable = False
+    return v
+
+
+def real_shard(seed, n, tier="quick"):
+    import hypothesis
+    from hypothesis import given, settings, HealthCheck, Phase, strategies as st
+    from real import runner
+    from vlib.common import Acc, HarnessError
+
+    acc = Acc()
+    fails = []
+    base = runner.workdir("c09real")
+    phases = [Phase.generate] if tier == "quick" else [Phase.generate, Phase.shrink]
+    get = st.fixed_dictionaries({"max_workers": st.integers(1, 3), "timeout": st.sampled_from([30, 30, 30, None, 25]),
+                                 "reuse": st.sampled_from(["auto", "auto", "auto", True, False]), "kill_workers": st.sampled_from([False, False, True])})
+    op = st.one_of(st.tuples(st.just("get"), get), st.tuples(st.just("get"), get), st.tuples(st.just("echo")), st.tuples(st.just("echo")),
+                   st.tuples(st.just("crash"), st.sampled_from([3, -9, -11])),
+                   st.tuples(st.just("ext_kill"), st.integers(0, 5), st.sampled_from([9, 11])),
+                   st.tuples(st.just("ext_kill"), st.integers(0, 5), st.sampled_from([9, 11])),
+                   st.tuples(st.just("shutdown"), st.booleans(), st.booleans()), st.tuples(st.just("idle"), st.sampled_from([0.05, 0.4])))
+
+    @hypothesis.seed(seed)
+    @settings(max_examples=n, database=None, deadline=None, suppress_health_check=list(HealthCheck), report_multiple_bugs=False,
+              phases=phases)
+    @given(get, st.lists(op, min_size=2, max_size=9), get)
+    def t(first, ops, last):
+        prog = {"ops": [["get", first]] + [list(o) for o in ops] + [["get", last], ["echo"]]}
+        res = runner.run("drv_c09.py", prog, base, timeout=300)
+        case = {"engine": "real", "prog": prog}
+        v = real_oracle(prog, res["out"])
+        if v and v[0][0] == "driver_incomplete":
+            if res["timed_out"]:
+                v = [("history_hangs", f"the driver did not finish within 300 s; err={res['err'][-300:]}")]
+            else:
+                raise HarnessError(f"C09 real driver incomplete rc={res['rc']}: {res['err'][-800:]} prog={prog}")
+        if not fails:
+            kinds = [o[0] for o in prog["ops"]]
+            acc.case(case, kinds.count("get") >= 3 and any(k in kinds for k in ("crash", "ext_kill", "shutdown")))
+            acc.count("real_history_cases")
+            for k in sorted(set(kinds)):
+                acc.count("real_op:" + k)
+        if v:
+            fails.append({"kind": v[0][0], "detail": v[0][1], "case": case, "where": "real:" + v[0][0]})
+            raise AssertionError(v[0][0])
+
+    try:
+        t()
+    except BaseException:
+        if not fails:
+            raise
+    finally:
+        import shutil
+        shutil.rmtree(base, ignore_errors=True)
+    if fails:
+        acc.violations.append(fails[-1])
+    return acc
+
+
+def run(tier, seed):
+    from vlib import common
+    from vlib.shards import run_jobs
+    acc = _sim_run(tier, seed)
+    nr = 64 if tier == "quick" else 960
+    a2, _ = run_jobs([{"module": "props.c09", "func": "real_shard",
+                       "kwargs": {"seed": common.derive_seed(seed, ID, "real", i), "n": nr // 16, "tier": tier}} for i in range(16)],
+                     tag="c09real", timeout_s=1500 if tier == "quick" else 7200)
+    acc.merge(a2, sample_cap=10)
+    return acc
+
+
+def replay(case, verbose=False):
+    if case.get("engine") == "real":
+        import shutil
+        from real import runner
+        base = runner.workdir("c09replay")
+        res = runner.run("drv_c09.py", case["prog"], base, timeout=300)
+        if verbose:
+            for o in res["out"]:
+                for r in o.get("log", []):
+                    print(" ", r)
+            print(res["err"][-600:])
+        v = real_oracle(case["prog"], res["out"])
+        shutil.rmtree(base, ignore_errors=True)
+        return [{"kind": k, "detail": d, "case": case, "predicates": []} for k, d in v]
+    return _sim_replay(case, verbose)
